@@ -21,3 +21,4 @@ m 0d8b53f C20
 m b00ef71 C20
 m 800ca92 C20
 m deb719b C20
+m 147a5fc C04
